@@ -913,6 +913,9 @@ cpdef Data matmul_dag_data(
     Data left, Data right,
     double complex scale=1, Dense out=None
 ):
+    if out is None:
+        # Not every specialisation of `matmul` takes an `out` argument.
+        return matmul(left, right.adjoint(), scale)
     return matmul(left, right.adjoint(), scale, out)
 
 
